@@ -56,5 +56,17 @@ def register_run(R):
                         "elems(fieldof(exc, 'args'))[0] == (not truthy(verdict_of(self.result)))"],
                ensures=["not truthy(self.exit)"])
     # TestToolsTestRunner.run: a TextTestResult bracketed by startTestRun / stopTestRun on every exit; the suite's result is returned
-    R.shape("ASuite", run=dict(signature="result", event=True, returns="any", exsures=["True"]))
+    # assumption on the abstract suite: whatever it reports, it does not re-assign the result's problem lists or its stream
+    KEEPS = ["distinct(fieldof(result, 'errors'), fieldof(result, 'failures'), fieldof(result, 'unexpectedSuccesses'))",
+             "fieldof(result, 'stream') is old(fieldof(result, 'stream'))", "fieldof(result, 'failfast') == old(fieldof(result, 'failfast'))"]
+    R.shape("ASuite", run=dict(signature="result", event=True, returns="any", exsures=KEEPS, ensures=KEEPS))
     R.fields_of("TestToolsTestRunner", failfast="any", stdout="OutStream", tb_locals="any")
+    R.contract("testtools.compat:unicode_output_stream", assumed=True, params={"stream": "any"}, returns="OutStream", pure=True,
+               ensures=["not allocated(ret)", "hist(ret) == hnil()"])
+    BRACKET = ("exists(lambda vr: hist(test) == snoc(old(hist(test)), call('run', [vr], {})) and not allocated(vr) and "
+               "typeof_is(vr, TextTestResult) and fieldof(vr, 'failfast') == self.failfast and "
+               # startTestRun and stopTestRun both ran on this exit: 'Tests running...', then the summary ('Ran ...' and OK /
+               # FAILED ...) are on the result's (fresh) stream -- at least three writes
+               "len(hist(fieldof(vr, 'stream'))) >= 3)")
+    R.contract(RUN + "TestToolsTestRunner.run", props=["C04"], params={"test": "ASuite"}, frame_hist=True,
+               modifies=["$hist"], returns="any", exsures=[BRACKET], ensures=[BRACKET])
